@@ -1,11 +1,13 @@
-SPECIFICATION GenSpec
+SPECIFICATION GenSpecP
 CONSTANTS
   Users = {"u1", "u2", "u3"}
   Tokens = {"btc", "eth"}
+  Odd = {"voucher-1"}
   Std = "stake"
   RecordHist = TRUE
   InitStd = 20
   InitTok = 20
+  InitOdd = 9
   CFee = 3
   FeeNum = 3
   FeeDen = 10
@@ -23,9 +25,7 @@ CONSTANTS
   Recipients = {"u1", "u2", "u3", "feepool", "module"}
   MaxSteps = 100
   DonateAlso = {"module", "feepool"}
-  Odd = {}
-  InitOdd = 0
-  WrongKind = FALSE
   WithUni = TRUE
-CONSTRAINT GenConstraint
+  WrongKind = TRUE
+CONSTRAINT GenConstraintP
 CHECK_DEADLOCK FALSE
